@@ -230,6 +230,9 @@ func (d *db) removeAllLocked(shardID uint64, replicaID uint64, newLog bool) erro
 	}
 	index := d.mu.nodeStates.getIndex(shardID, replicaID)
 	index.removeAll()
+	// forget the cached state, otherwise an equal state written by a later
+	// incarnation is considered as already saved and silently skipped
+	d.mu.nodeStates.setState(shardID, replicaID, pb.State{})
 	v := d.mu.versions.currentVersion()
 	ve := versionEdit{
 		deletedFiles: make(map[deletedFileEntry]*fileMetadata),
